@@ -245,10 +245,11 @@ static int cmdWs( int argc, char ** argv ) {
         Severity w = sf.WriteWorkingFile( a[2] );
         o << ",\"write1\":" << ( int ) w;
     }
+    bool strictReload = hasFlag( argc, argv, "-s" );
     for( size_t k = 2; k + 1 < a.size(); k++ ) {
         Registry registry( SchemaInit );
         InstMgr im;
-        STEPfile sf( registry, im, "", false );
+        STEPfile sf( registry, im, "", strictReload );
         sf.ReadWorkingFile( a[k] );
         o << ",\"read" << ( k - 1 ) << "\":" << errJson( sf.Error() ) << ",\"after" << ( k - 1 ) << "\":" << dumpMgr( im, true );
         Severity w = sf.WriteWorkingFile( a[k + 1] );
